@@ -390,6 +390,10 @@ var skipInit = map[string]bool{
 	"github.com/rcrowley/go-metrics": true, "go.etcd.io/bbolt": true,
 	"github.com/cenkalti/log": true,
 	"github.com/cenkalti/rain/v2/internal/logger": true,
+	// init enumerates the machine's network interfaces (netlink syscalls): no external IPs known
+	"github.com/cenkalti/rain/v2/internal/externalip": true,
+	// init interns address zones through package unique (runtime weak pointers)
+	"net/netip": true, "unique": true,
 	"github.com/nictuku/dht": true,
 }
 
